@@ -1,8 +1,10 @@
 import ZI.OrderDefs
 /-! C12 model, operand level (core Lean only): the rich-comparison *methods* of `InterfaceClass` (Python reference
 `NameAndModuleComparisonMixin` + `InterfaceBase.__eq__/__ne__/__hash__`, and the C twin `IB_richcompare`),
-of `Implements` (mixin ordering, default identity `==`/`!=`/hash), of `None` and of foreign objects (default methods),
-and CPython's binary-operator protocol on top of them (`a op b`: `a.__op__(b)`, then the reflected method of `b`,
+of `Implements` (mixin ordering, default identity `==`/`!=`/hash), of `None` and of foreign objects (default methods;
+foreign objects *with comparison methods of their own*: transparent proxies of an interface and constant-answer sentinels),
+interfaces whose constructor left `__name__` as `None` (`Element.__init__`: a docless name with a blank is filed as the
+docstring), and CPython's binary-operator protocol on top of them (`a op b`: `a.__op__(b)`, then the reflected method of `b`,
 then identity for `==`/`!=`, `TypeError` otherwise).  `sorted()` is modelled as a stable insertion sort that only
 asks `<`, as `list.sort` does. -/
 namespace ZI.Order
@@ -13,11 +15,18 @@ inductive Operand
   | none                            -- Python `None`
   | foreign (id : Nat) (k : Key)    -- any other object with string `__name__` and `__module__`
   | plain (id : Nat)                -- an object without those attributes
+  | anon (id : Nat) (m : String)    -- an InterfaceClass whose `__name__` is `None`: key `(None, m)`
+  | wrap (id : Nat) (tid : Nat) (k : Key)   -- a transparent proxy of the interface `iface tid k`, no `__name__`:
+                                    --   `__eq__(o) = target == o`, `__ne__(o) = target != o`, `__hash__ = hash(target)`
+  | sentinel (id : Nat) (eqv : Bool) (ord : Option Bool)
+                                    -- a nameless object with constant answers: `__eq__` says `eqv`, `__ne__` says `!eqv`,
+                                    --   `__lt__/__le__/__gt__/__ge__` say `ord` (`none` = not defined: NotImplemented)
 deriving DecidableEq, Repr
 
 /-- object identity (`is`); `None` is a singleton -/
 def Operand.ident : Operand → Option Nat
   | .iface i _ => some i | .impl i _ => some i | .none => Option.none | .foreign i _ => some i | .plain i => some i
+  | .anon i _ => some i | .wrap i _ _ => some i | .sentinel i _ _ => some i
 
 def Operand.same (a b : Operand) : Bool := a.ident == b.ident
 
@@ -41,6 +50,17 @@ def mixinCompare (self other : Operand) (selfKey : Key) : Option Int :=
     | Option.none => Option.none
     | some k => some (compare3 selfKey k)
 
+/-- `_compare` of an interface whose `__name__` is `None`, key `(None, m)`: against another such interface the two
+names are the same object and the modules decide; against an operand with a *string* name Python cannot order
+`None` and `str` (TypeError) — those pairs are outside the property's domain (`outside`), never asked of the model,
+and answered `NotImplemented` here only to make the function total -/
+def anonCompare (self other : Operand) (m : String) : Option Int :=
+  if self.same other then some 0 else
+  match other with
+  | .none => some (-1)
+  | .anon _ m2 => some (compare3 ("", m) ("", m2))
+  | _ => Option.none
+
 /-- the default `object` comparison methods: only `==`/`!=` by identity, everything else NotImplemented -/
 def objectMethod (op : Cmp) (self other : Operand) : Option Bool :=
   match op with
@@ -48,16 +68,25 @@ def objectMethod (op : Cmp) (self other : Operand) : Option Bool :=
   | .ne => if self.same other then some false else Option.none
   | _ => Option.none
 
-/-- `type(self).__op__(self, other)` in the Python reference; `none` = `NotImplemented` -/
-def methodPy (op : Cmp) (self other : Operand) : Option Bool :=
+/-- `type(self).__op__(self, other)` in the Python reference; `none` = `NotImplemented`.  (`methodPy0`: every operand
+but the transparent proxy, whose methods run a whole comparison of their own — `methodPy` below.) -/
+def methodPy0 (op : Cmp) (self other : Operand) : Option Bool :=
   match self with
   | .iface _ k =>
       if op = .ne ∧ self.same other then some false      -- `InterfaceBase.__ne__`: `if other is self: return False`
       else (mixinCompare self other k).map (intOp op)
+  | .anon _ m =>
+      if op = .ne ∧ self.same other then some false
+      else (anonCompare self other m).map (intOp op)
   | .impl _ k =>
       match op with
       | .eq | .ne => objectMethod op self other            -- identity equality is kept for `Implements`
       | _ => (mixinCompare self other k).map (intOp op)
+  | .sentinel _ e o =>
+      match op with
+      | .eq => some e
+      | .ne => some (!e)
+      | _ => o
   | _ => objectMethod op self other
 
 /-- `IB_richcompare(self, other, op)` for an interface `self` (C accelerator) -/
@@ -70,10 +99,21 @@ def ibRichcompare (op : Cmp) (self other : Operand) (k : Key) : Option Bool :=
       | Option.none => Option.none
       | some k2 => some (cOp op k k2)
 
-def methodC (op : Cmp) (self other : Operand) : Option Bool :=
+/-- `IB_richcompare` for an interface whose `__name__` is `None`: the names compare equal (`None == None`), the
+modules are compared with `op` -/
+def ibRichcompareAnon (op : Cmp) (self other : Operand) (m : String) : Option Bool :=
+  if self.same other ∧ (op = .eq ∨ op = .le ∨ op = .ge) then some true
+  else if self.same other ∧ op = .ne then some false
+  else match other with
+    | .none => some (op = .lt ∨ op = .le ∨ op = .ne)
+    | .anon _ m2 => some (cOp op ("", m) ("", m2))
+    | _ => Option.none
+
+def methodC0 (op : Cmp) (self other : Operand) : Option Bool :=
   match self with
   | .iface _ k => ibRichcompare op self other k
-  | _ => methodPy op self other
+  | .anon _ m => ibRichcompareAnon op self other m
+  | _ => methodPy0 op self other
 
 inductive Res | bool (b : Bool) | typeError
 deriving DecidableEq, Repr
@@ -91,11 +131,41 @@ def binop (method : Cmp → Operand → Operand → Option Bool) (op : Cmp) (a b
       | .ne => .bool (!a.same b)
       | _ => .typeError
 
+def Res.toBool : Res → Bool
+  | .bool b => b
+  | .typeError => false
+
+/-- what the proxy of `iface tid k` answers for `proxy == other` (`op = eq`) / `proxy != other` (`op = ne`): the value
+of `target op other`, a whole comparison.  When `other` is a proxy too the target's method defers
+(`NotImplemented`: no `__name__`) and `other`'s reflected method compares *its* target with ours. -/
+def wrapAnswer (m0 : Cmp → Operand → Operand → Option Bool) (op : Cmp) (tid : Nat) (k : Key) (other : Operand) : Bool :=
+  match other with
+  | .wrap _ tid2 k2 => (binop m0 op (.iface tid2 k2) (.iface tid k)).toBool
+  | _ => (binop m0 op (.iface tid k) other).toBool
+
+def methodPy (op : Cmp) (self other : Operand) : Option Bool :=
+  match self with
+  | .wrap _ tid k =>
+      match op with
+      | .eq | .ne => some (wrapAnswer methodPy0 op tid k other)
+      | _ => Option.none
+  | _ => methodPy0 op self other
+
+def methodC (op : Cmp) (self other : Operand) : Option Bool :=
+  match self with
+  | .wrap _ tid k =>
+      match op with
+      | .eq | .ne => some (wrapAnswer methodC0 op tid k other)
+      | _ => Option.none
+  | _ => methodC0 op self other
+
 /-- what `hash()` is a function of: the key for interfaces (`hash((name, module))`), identity otherwise -/
-inductive HashOf | key (k : Key) | ident (i : Option Nat)
+inductive HashOf | key (k : Key) | anonKey (m : String) | ident (i : Option Nat)
 deriving DecidableEq, Repr
 def hashOf : Operand → HashOf
   | .iface _ k => .key k
+  | .anon _ m => .anonKey m           -- `hash((None, m))`
+  | .wrap _ _ k => .key k             -- `hash(target)`
   | x => .ident x.ident
 
 /-- `a < b` as `sorted` sees it (an exception aborts the sort; the generators never sort foreign objects) -/
@@ -114,6 +184,7 @@ def sortModel (lt : Operand → Operand → Bool) (l : List Operand) : List Oper
 /-- the sort key the statement names: interfaces and class specifications by `(name, module)`, `None` last -/
 def sortKey : Operand → Option Key
   | .none => Option.none
+  | .anon _ m => some ("", m)         -- `(None, m)`: among nameless interfaces the modules decide
   | x => x.key?
 
 /-- `a` sorts no later than `b` -/
@@ -125,6 +196,25 @@ def keyLe (a b : Operand) : Prop :=
 end ZI.Order
 
 namespace ZI.Order
+/-- `Element.__init__(name, doc)`: `if not doc and name.find(' ') >= 0: doc, name = name, None` — the final
+`__name__` of an interface built by `InterfaceClass(name, ..., __doc__=doc)` -/
+def finalName (name : String) (hasDoc : Bool) : Option String :=
+  if !hasDoc && name.toList.any (· == ' ') then Option.none else some name
+
+def mkIface (id : Nat) (name module : String) (hasDoc : Bool) : Operand :=
+  match finalName name hasDoc with
+  | some n => .iface id (n, module)
+  | Option.none => .anon id module
+
+def Operand.isAnon : Operand → Bool
+  | .anon _ _ => true | _ => false
+/-- operands that carry (or, for a proxy, stand for) a *string* `__name__` -/
+def Operand.strNamed : Operand → Bool
+  | .iface _ _ => true | .impl _ _ => true | .foreign _ _ => true | .wrap _ _ _ => true | _ => false
+/-- pairs outside the property's domain ("over all name/module strings"): a `None`-named interface against a
+string-named operand — `(None, m) < ('x', m)` is a `TypeError` of Python's own -/
+def outside (a b : Operand) : Bool := (a.isAnon && b.strNamed) || (a.strNamed && b.isAnon)
+
 /-- `_implements_name(cls)` and the class attribute `Implements.__module__`: the key of `implementedBy(cls)` -/
 def implementsKey (clsName clsModule : String) : Key :=
   ((if clsModule = "" then "?" else clsModule) ++ "." ++ (if clsName = "" then "?" else clsName),
